@@ -90,7 +90,7 @@ func vrtIntrinsic(ex *Exec, fn *ssa.Function, args []Value, site string) Value {
 		nm := ex.argStr(args[0])
 		mx := ex.argInt(args[1])
 		ln := ex.inputVar(nm+".len", 64)
-		ex.assume(C.Ule(ln, ex.k64(int64(mx))))
+		ex.assume(C.AssumeRange(ln, int64(mx)))
 		gen := func(idx *T) Value {
 			a := C.App(nm, smt.BV(8), idx)
 			if idx.IsConst() {
